@@ -7,7 +7,9 @@
 //        mode: 0 uniform, 1 pawn storm (promotions), 2 keep castling rights / castle,
 //              3 seek en-passant rights (game is prolonged up to 12 plies to end on a double
 //              push that leaves a capturable e.p. square), 4 rights-losing (king/rook moves early),
-//              5 end on a checking move (prolonged up to 12 plies)
+//              5 end on a checking move (prolonged up to 12 plies),
+//              6 directed at the kernel search (promotions by capture/straight, file-changing pawns, bishops taken at home), all castling rights kept,
+//              7 the same without the castling restriction
 //        captures are forbidden once only <minMen> men are left.
 //        -> "G <n> <flags> | <uci moves>"   flags: p=promotion c=castled e=e.p. capture played
 //                                           E=final position has an e.p. square  m=mate s=stalemate
@@ -142,6 +144,12 @@ static void cmdGame(std::istringstream& is) {
     std::vector<std::string> out;
     bool fProm = false, fCastle = false, fEp = false, fMate = false, fStale = false;
     int extra = 0;
+    // steering parameters of the directed modes (6, 7), drawn once per game
+    const int dirBias = rng.below(256);                       // files whose pawns are pushed three times as eagerly
+    const int capPawnW = 40 + 40 * rng.below(6);              // pawn takes pawn
+    const int capPieceW = 40 + 40 * rng.below(6);             // pawn takes piece
+    const int underW = 30 + 40 * rng.below(4);                // per cent of the queen-promotion weight for R/B/N
+    const int feedW = 10 + 20 * rng.below(4);                 // a piece steps onto a square attacked by an enemy pawn
     for (int ply = 0; ; ply++) {
         MoveList moves; legalMoves(pos, moves);
         if (moves.size == 0) { (MoveGen::inCheck(pos) ? fMate : fStale) = true; break; }
@@ -219,6 +227,46 @@ static void cmdGame(std::istringstream& is) {
             case 4:
                 if ((isKing || isRook) && ply < 30) wt = 60;
                 break;
+            case 6: case 7: {
+                // directed at the case splits of the proof-kernel search: both sides cooperate to promote pawns
+                // (by capture and straight, under-promotions), pawns change files by capturing pawns and pieces
+                // (doubled / tripled pawns), pieces step onto squares attacked by enemy pawns, bishops are taken on
+                // their home squares; advanced pawns are not captured.  Mode 6 keeps all castling rights (kings and
+                // rooks do not move: e1/e8 and the corners stay blocked, promotions from the d/f files are impossible).
+                const bool white = pos.isWhiteMove();
+                const int toY = m.to().getY(), fromY = m.from().getY();
+                const int adv = white ? toY : 7 - toY;              // rank reached, from the mover's side
+                const U64 toMask = 1ULL << m.to().asInt();
+                const U64 oppPawnAtt = white ? BitBoard::bPawnAttacksMask(pos.pieceTypeBB(Piece::BPAWN))
+                                             : BitBoard::wPawnAttacksMask(pos.pieceTypeBB(Piece::WPAWN));
+                const int victim = pos.getPiece(m.to());
+                const bool victimPawn = victim == Piece::WPAWN || victim == Piece::BPAWN;
+                const int vAdv = victimPawn ? (white ? 7 - toY : toY) : 0;   // how far the captured pawn had come
+                if (isPawn) {
+                    wt = 20 + 12 * adv * ((dirBias >> (m.from().getX())) & 1 ? 3 : 1);
+                    if (cap) wt = (victimPawn ? capPawnW : capPieceW) + 10 * adv;
+                    if (m.promoteTo() != Piece::EMPTY) {
+                        wt = cap ? 700 : 350;
+                        int pt = Piece::makeWhite(m.promoteTo());
+                        if (pt != Piece::WQUEEN) wt = wt * underW / 100;
+                    }
+                    if (cap && vAdv >= 4) wt = 2;                    // leave the other side's runner alone
+                } else {
+                    if (cap) {
+                        bool bishopHome = (victim == Piece::WBISHOP && (m.to().asInt() == C1 || m.to().asInt() == F1)) ||
+                                          (victim == Piece::BBISHOP && (m.to().asInt() == C8 || m.to().asInt() == F8));
+                        wt = bishopHome ? 90 : (victimPawn ? (vAdv >= 3 ? 1 : 4) : 3);
+                    } else if (toMask & oppPawnAtt) {
+                        wt = isKing ? 0 : feedW;                     // offer a piece to an enemy pawn
+                    } else {
+                        wt = 8;
+                    }
+                    if (isKing || isRook) wt = (mode == 6) ? (castle ? 0 : 0) : std::min(wt, 4);
+                    if (mode == 7 && castle) wt = 30;
+                }
+                (void)fromY;
+                break;
+            }
             default: break;
             }
             w[i] = wt; tot += wt;
